@@ -111,8 +111,9 @@ def oracle(case, io, reply):
         return fails
     _text, written = bibgen.render_written(case['doc'], bibgen.Layout(case.get('choices', [])), case.get('fixed'))
     want = bibgen.denote(written, person_split)
-    if io['errors']:
-        fails.append('faithful: well-formed document reported %r; text=%r' % (io['errors'][:3], text_of(case)[:300]))
+    if io['errors'] != want['errors']:
+        fails.append('faithful/identifiers: reported %r, the document denotes the problems %r (repeated field names and keys are matched '
+                     'case-insensitively, the first occurrence wins); text=%r' % (io['errors'][:4], want['errors'][:4], text_of(case)[:300]))
     if io['preamble'] != want['preamble']:
         fails.append('preamble: got %r, document denotes %r' % (io['preamble'], want['preamble']))
     got_e, want_e = io['entries'], want['entries']
@@ -190,6 +191,10 @@ SMALL_DOCS = [
 ]
 
 
+def rngkey(a):
+    return {'title': 'k1', 'Title': 'K1', 'TITLE': 'k2', 'tItLe': 'K1'}[a]
+
+
 def gen_cases(tier, rng, info):
     cases = []
     combos = 0
@@ -199,11 +204,21 @@ def gen_cases(tier, rng, info):
             fixed = {'paren': paren, 'spelling': spelling, 'case': case_, 'ws': ws, 'trailing': trailing, 'keepcase': False}
             cases.append({'op': 'bibparse', 'doc': doc, 'fixed': fixed, 'choices': [case_]})
             combos += 1
+    ndup = 0
+    spell = ['title', 'Title', 'TITLE', 'tItLe']
+    for a in spell:
+        for b in spell:
+            for role in ('author', 'Author', 'AUTHOR'):
+                doc = [{'k': 'entry', 'type': 'misc', 'key': 'K1', 'fields': [[a, [{'lit': 'first'}]], ['year', [{'lit': '1'}]], [b, [{'lit': 'second'}]],
+                                                                            [role, [{'lit': 'One, A'}]], ['aUtHoR', [{'lit': 'Two, B'}]]]},
+                       {'k': 'entry', 'type': 'misc', 'key': rngkey(a), 'fields': [['note', [{'lit': 'n'}]]]}]
+                cases.append({'op': 'bibparse', 'doc': doc, 'fixed': {'paren': False, 'spelling': 0, 'case': 0, 'ws': 0, 'trailing': False, 'keepcase': True}, 'choices': [0]})
+                ndup += 1
     info['exhaustive'] = True
-    info['scope'] = '%d hand-written small documents using every construct x every global layout combination = %d renderings' % (len(SMALL_DOCS), combos)
+    info['scope'] = '%d documents naming a field twice / a key twice in every pair of case spellings; ' % ndup + '%d hand-written small documents using every construct x every global layout combination = %d renderings' % (len(SMALL_DOCS), combos)
     n = 2500 if tier == 'quick' else 50000
     for i in range(n):
-        doc = bibgen.gen_doc(rng)
+        doc = bibgen.gen_doc(rng, dups=(i % 4 == 3))
         choices = [rng.randrange(64) for _ in range(40)]
         paren = rng.random() < 0.3
         if any(c['k'] == 'entry' and '}' in c['key'] for c in doc):
